@@ -61,6 +61,11 @@ Definition choose_fresh_global_variables (p : program) : option (list string) :=
 
 (* ---------- val ---------- *)
 
+(* decidable equality of variables, transparent so that the model also computes inside Coq
+   (Fol.var_dec goes through an opaque lemma); extraction is the same function *)
+Definition vdec (a b : var) : {a = b} + {a <> b}.
+Proof. decide equality; [apply sort_dec|apply string_dec]. Defined.
+
 (* z as a term; the Symbol arm is `unreachable!` in the Rust code (tau* creates no Symbol variables) *)
 Definition z_var_term (z : var) : gterm := var_to_gterm z.
 
@@ -107,8 +112,8 @@ Definition construct_partial_function_formula
   let i := vname i_var in
   let j := vname j_var in
   let taken_vars :=
-    iset_extend var_dec
-      (iset_extend var_dec [] (map (fun v => gvar (format_var v)) (variables valti)))
+    iset_extend vdec
+      (iset_extend vdec [] (map (fun v => gvar (format_var v)) (variables valti)))
       (map (fun v => gvar (format_var v)) (variables valtj)) in
   let taken := map vname taken_vars in
   let qvar := fresh_one taken "Q" in
@@ -141,7 +146,7 @@ Definition construct_interval_formula (valti valtj : formula) (i_var j_var k_var
 
 (* the names `val` must avoid: the term's variables (as general variables) and z *)
 Definition val_taken (t : term) (z : var) : list string :=
-  map vname (iset_insert var_dec (iset_extend var_dec [] (map gvar (term_vars t))) z).
+  map vname (iset_insert vdec (iset_extend vdec [] (map gvar (term_vars t))) z).
 
 (* val_t(Z) *)
 Fixpoint val (t : term) (z : var) : formula :=
@@ -200,7 +205,7 @@ Definition tau_b_comparison (c : comparison) (taken_vars : list var) : formula :
   FQ QExists [var_z1; var_z2] (FBin CAnd valtz_f z1_rel_z2).
 
 Definition tau_b (f : bformula) : formula :=
-  let taken_vars := iset_extend var_dec [] (map gvar (bformula_vars f)) in
+  let taken_vars := iset_extend vdec [] (map gvar (bformula_vars f)) in
   match f with
   | BLit l =>
       match aterms (latom l) with
